@@ -938,6 +938,13 @@ func (r *envelopingReader) prepareNext() error {
 			r.rw.reportError(err)
 			return err
 		}
+		if r.rw.op.serverEnveloper == nil && r.current != nil && r.rw.op.methodConf.streamType&connect.StreamTypeClient == 0 {
+			// The server protocol has no envelopes and the method takes a single request
+			// message: a second one cannot be forwarded (it would be concatenated).
+			err = malformedRequestError(errors.New("request stream has more than one message"))
+			r.rw.reportError(err)
+			return err
+		}
 		r.current = io.LimitReader(r.r, int64(env.length))
 	}
 
@@ -1013,6 +1020,13 @@ func (r *transformingReader) Read(data []byte) (n int, err error) {
 				r.err = err
 				return 0, err
 			}
+		} else if r.consumedFirst && r.rw.op.serverEnveloper == nil && r.rw.op.methodConf.streamType&connect.StreamTypeClient == 0 {
+			// The server protocol has no envelopes and the method takes a single request
+			// message: a second one cannot be forwarded (it would be concatenated).
+			err := malformedRequestError(errors.New("request stream has more than one message"))
+			r.err = err
+			r.rw.reportError(err)
+			return 0, err
 		}
 		if err := r.prepareMessage(); err != nil {
 			r.err = err
